@@ -13,7 +13,7 @@ CONSTANTS MaxSize, MaxCalls, Reps, Budget, PrefixLen
 
 RECURSIVE HasFor(_), Size(_)
 ThunkTerms(f) == IF f.body.k = "ret" THEN {f.body.e} ELSE {f.body.a, f.body.b}
-HasFor(t) == CASE t.k = "for" -> TRUE
+HasFor(t) == CASE t.k \in {"for", "forpost"} -> TRUE
                [] t.k \in {"bind", "bindrecv", "delay"} -> \E e \in ThunkTerms(t.f) : HasFor(e)
                [] t.k = "comb" -> HasFor(t.a) \/ HasFor(t.b)
                [] t.k = "brk" -> HasFor(t.body)
@@ -22,6 +22,7 @@ Max(S) == CHOOSE x \in S : \A y \in S : y <= x
 Size(t) == CASE t.k \in {"for", "brk"} -> 1 + Size(t.body)
              [] t.k \in {"bind", "bindrecv", "delay"} -> 1 + Max({Size(e) : e \in ThunkTerms(t.f)})
              [] t.k = "comb" -> 1 + Size(t.a) + Size(t.b)
+             [] t.k = "forpost" -> 1 + Size(t.post) + Size(t.body)
              [] OTHER -> 1
 RECURSIVE Rep(_, _)
 Rep(p, n) == IF n = 0 THEN <<>> ELSE p \o Rep(p, n - 1)
